@@ -184,6 +184,7 @@ func (tr *Transaction) setDone() {
 	tr.db.tr = nil
 	tr.mem.decref()
 	verifEvent(VerifEvTxnUnlock, 0, 0)
+	verifEvent(201, 11, 0)
 	<-tr.db.writeLockC
 }
 
@@ -192,6 +193,8 @@ func (tr *Transaction) setDone() {
 //
 // Other methods should not be called after transaction has been committed.
 func (tr *Transaction) Commit() error {
+	defer verifEvent(221, 4, 0)
+	verifEvent(220, 4, 0)
 	if err := tr.db.ok(); err != nil {
 		return err
 	}
@@ -210,6 +213,7 @@ func (tr *Transaction) Commit() error {
 		// Committing transaction.
 		tr.rec.setSeqNum(tr.seq)
 		tr.db.compCommitLk.Lock()
+		verifEvent(210, 4, 0)
 		tr.stats.startTimer()
 		var cerr error
 		for retry := 0; retry < 3; retry++ {
@@ -220,6 +224,7 @@ func (tr *Transaction) Commit() error {
 				case <-time.After(time.Second):
 				case <-tr.db.closeC:
 					tr.db.logf("transaction@commit exiting")
+					verifEvent(211, 4, 0)
 					tr.db.compCommitLk.Unlock()
 					return cerr
 				}
@@ -235,6 +240,7 @@ func (tr *Transaction) Commit() error {
 		if cerr != nil {
 			// Return error, lets user decide either to retry or discard
 			// transaction.
+			verifEvent(211, 4, 0)
 			tr.db.compCommitLk.Unlock()
 			return cerr
 		}
@@ -244,6 +250,7 @@ func (tr *Transaction) Commit() error {
 
 		// Trigger table auto-compaction.
 		tr.db.compTrigger(tr.db.tcompCmdC)
+		verifEvent(211, 4, 0)
 		tr.db.compCommitLk.Unlock()
 
 		// Additionally, wait compaction when certain threshold reached.
@@ -270,6 +277,8 @@ func (tr *Transaction) discard() {
 //
 // Other methods should not be called after transaction has been discarded.
 func (tr *Transaction) Discard() {
+	defer verifEvent(221, 5, 0)
+	verifEvent(220, 5, 0)
 	tr.lk.Lock()
 	if !tr.closed {
 		tr.discard()
@@ -299,6 +308,8 @@ func (db *DB) waitCompaction() error {
 // the transaction.
 // Closing the DB will discard open transaction.
 func (db *DB) OpenTransaction() (*Transaction, error) {
+	defer verifEvent(221, 3, 0)
+	verifEvent(220, 3, 0)
 	if err := db.ok(); err != nil {
 		return nil, err
 	}
@@ -306,6 +317,7 @@ func (db *DB) OpenTransaction() (*Transaction, error) {
 	// The write happen synchronously.
 	select {
 	case db.writeLockC <- struct{}{}:
+		verifEvent(200, 3, 0)
 		verifEvent(VerifEvTxnLock, 0, 0)
 	case err := <-db.compPerErrC:
 		return nil, err
@@ -320,6 +332,7 @@ func (db *DB) OpenTransaction() (*Transaction, error) {
 	// Flush current memdb.
 	if db.mem != nil && db.mem.Len() != 0 {
 		if _, err := db.rotateMem(0, true); err != nil {
+			verifEvent(201, 3, 0)
 			<-db.writeLockC
 			return nil, err
 		}
@@ -329,6 +342,7 @@ func (db *DB) OpenTransaction() (*Transaction, error) {
 		// recorded) ahead of older writes that only live in a frozen memdb.
 		fm.decref()
 		if err := db.compTriggerWait(db.mcompCmdC); err != nil {
+			verifEvent(201, 3, 0)
 			<-db.writeLockC
 			return nil, err
 		}
@@ -336,6 +350,7 @@ func (db *DB) OpenTransaction() (*Transaction, error) {
 
 	// Wait compaction when certain threshold reached.
 	if err := db.waitCompaction(); err != nil {
+		verifEvent(201, 3, 0)
 		<-db.writeLockC
 		return nil, err
 	}
@@ -347,5 +362,6 @@ func (db *DB) OpenTransaction() (*Transaction, error) {
 	}
 	tr.mem.incref()
 	db.tr = tr
+	verifEvent(204, 3, 0)
 	return tr, nil
 }
